@@ -141,6 +141,18 @@ search:
 		}
 	}
 	rec()
+	// key-length sweep: one record per key length 1..300 (the key hash has length-dependent code paths: keys of
+	// 96..191 bytes were once hashed differently by writer and reader), each looked up after a second put
+	for n := 1; n <= 300; n++ { // (the empty key is keys[0] of the enumeration above)
+		long := make([]byte, n)
+		for i := range long {
+			long[i] = byte('a' + (i*7+n)%26)
+		}
+		keys[5] = long
+		seq = []int{5, 6}
+		check()
+	}
+	seq = nil
 	fmt.Printf("BOUNDED-CASES %d\n", cases)
 	fmt.Printf("BOUNDED-SAMPLE full-hash collision pair %q/%q (hash %08x), same-table keys %q %q; all put sequences of length <= %d over 7 keys\n", c1, c2, vbHash(c1), s1, s2, maxLen)
 	if fails > 0 {
